@@ -189,29 +189,41 @@ def TM.deadline (tm : TM) : Option Nat := (peekMin tm.heap).map (·.time)
 
 /-! ## deferred functions and task bodies (the scripted environment of C14) -/
 
-/-- a function handed to `core.deferred`: when called it records `id`, defers
-    `kids` in order, then raises if `raises` -/
-inductive Fn where
-  | mk (id : Nat) (raises : Bool) (kids : List Fn)
+/-- what a task body or a deferred function may do to the scheduler while it
+    runs (re-entrant use of the manager from inside `process_task` / the drain
+    loop) -/
+inductive Act
+  | installAt (tid t : Nat)      -- tasks[tid].install_task(when=t)
+  | installAfter (tid d : Nat)   -- tasks[tid].install_task(delta=d)
+  | suspend (tid : Nat)          -- tasks[tid].suspend_task()
+  | stop                         -- core.stop()
+deriving DecidableEq, Repr, Inhabited
 
-def Fn.id : Fn → Nat | .mk i _ _ => i
-def Fn.raises : Fn → Bool | .mk _ r _ => r
-def Fn.kids : Fn → List Fn | .mk _ _ k => k
+/-- a function handed to `core.deferred`: when called it records `id`, performs
+    `acts` in order, defers `kids` in order, then raises if `raises` -/
+inductive Fn where
+  | mk (id : Nat) (raises : Bool) (kids : List Fn) (acts : List Act)
+
+def Fn.id : Fn → Nat | .mk i _ _ _ => i
+def Fn.raises : Fn → Bool | .mk _ r _ _ => r
+def Fn.kids : Fn → List Fn | .mk _ _ k _ => k
+def Fn.acts : Fn → List Act | .mk _ _ _ a => a
 
 mutual
   /-- number of calls a function causes: itself and everything it defers -/
   def Fn.weight : Fn → Nat
-    | .mk _ _ kids => 1 + weights kids
+    | .mk _ _ kids _ => 1 + weights kids
   def weights : List Fn → Nat
     | [] => 0
     | f :: r => f.weight + weights r
 end
 
-/-- what `process_task` of a scripted task does: record the firing, defer
-    `defers` in order, then raise if `raises` -/
+/-- what `process_task` of a scripted task does: record the firing, perform
+    `acts` in order, defer `defers` in order, then raise if `raises` -/
 structure Body where
   raises : Bool := false
   defers : List Fn := []
+  acts : List Act := []
 
 /-- one firing as seen at `process_task`: which task, its due time and
     installation number, the manager's time, and (ghost) the manager's counter
@@ -231,6 +243,7 @@ inductive Ev
   | taskErr (tid : Nat)             -- run/run_once logged an exception of a task
   | fnErr (id : Nat)                -- run/run_once logged an exception of a deferred function
   | raised (k : Raised)             -- RuntimeError returned to the caller of an API
+  | act (a : Act) (now : Nat) (due : Option Nat)   -- a body / deferred function used the scheduler
 deriving Repr, Inhabited
 
 structure World where
@@ -245,6 +258,7 @@ structure World where
   subs      : List Nat := []      -- ghost: ids in submission order
   failed    : List Nat := []      -- ids whose exception was logged
   out       : List Ev := []       -- everything observable, in order
+  running   : Bool := false       -- core.running
 
 def World.emit (w : World) (e : Ev) : World := { w with out := w.out ++ [e] }
 
@@ -254,10 +268,28 @@ def World.defer (w : World) (f : Fn) : World :=
 
 def World.deferAll (w : World) (fs : List Fn) : World := fs.foldl World.defer w
 
+/-- one use of the scheduler from inside a task body or a deferred function.
+    `install_task(when=…)` / `(delta=…)` cannot raise; `stop()` clears
+    `core.running` and sets the trigger. -/
+def World.act (w : World) (a : Act) : World :=
+  let w := match a with
+    | .installAt tid t => { w with tm := (w.tm.installTask w.now tid (some t) none).1 }
+    | .installAfter tid d => { w with tm := (w.tm.installTask w.now tid none (some d)).1 }
+    | .suspend tid => { w with tm := w.tm.suspend tid }
+    | .stop => { w with running := false, tm := { w.tm with trig := true } }
+  let due := match a with
+    | .installAt tid _ => w.tm.ttime tid
+    | .installAfter tid _ => w.tm.ttime tid
+    | _ => none
+  { w with out := w.out ++ [Ev.act a w.now due] }
+
+def World.doActs (w : World) (as : List Act) : World := as.foldl World.act w
+
 /-- the body of the `for fn, args, kwargs in fnlist:` loop (fixed tree):
     `try: fn() except Exception: log` -/
 def World.callFn (w : World) (f : Fn) : World :=
   let w := { w with calls := w.calls ++ [f.id], out := w.out ++ [Ev.call f.id] }
+  let w := w.doActs f.acts
   let w := w.deferAll f.kids
   if f.raises then { w with failed := w.failed ++ [f.id], out := w.out ++ [Ev.fnErr f.id] } else w
 
@@ -283,6 +315,7 @@ def World.process (w : World) (e : Entry) : World × Bool :=
   let b := w.body e.tid
   let w := { w with fired := w.fired ++ [Fire.mk e.tid e.time e.seq w.now w.tm.counter],
                     out := w.out ++ [Ev.fire e.tid w.now e.time e.seq] }
+  let w := w.doActs b.acts
   let w := w.deferAll b.defers
   if w.recurring e.tid then
     let r := w.tm.installRecurring w.now e.tid none none
@@ -314,9 +347,11 @@ def World.runOnceLoop : Nat → World → World × Bool
     let w := r.1.drain
     if r.2.1 = some 0 then runOnceLoop fuel w else (w, true)
 
-/-- `core.run_once()`; at most one iteration per heap entry, plus one
-    (`C14.runOnce_completes`) -/
-def World.runOnce (w : World) : World × Bool := w.runOnceLoop (w.tm.heap.length + 1)
+/-- `core.run_once()`.  With bodies that leave the manager alone one iteration
+    per heap entry, plus one, is enough (`C14.runOnce_complete`); a body that
+    re-arms itself for "now" makes the real loop spin for ever, so the fuel is a
+    parameter. -/
+def World.runOnce (w : World) (fuel : Nat) : World × Bool := w.runOnceLoop fuel
 
 /-- `if delta is None: delta = spin` … `delta = min(delta, spin)` of `core.run` -/
 def World.timeout (w : World) : Option Nat → Nat
@@ -333,11 +368,14 @@ def World.timeout (w : World) : Option Nat → Nat
 
     (`trigger` is a flag object put in place of the manager's wake-up pipe:
     install_task, suspend_task and deferred set it, exactly as they write to
-    the pipe in production.)  The Bool is `false` iff the fuel ran out before
-    `stop()`. -/
-def World.runLoop : Nat → Nat → World → World × Bool
-  | 0, _, w => (w, false)
+    the pipe in production.)  Result code: 0 = the fuel ran out, 1 = the stub
+    stopped the loop at `T`, 2 = a task body or deferred function called
+    `stop()` (`while running:` found `running` false). -/
+def World.runLoop : Nat → Nat → World → World × Nat
+  | 0, _, w => (w, 0)
   | fuel + 1, T, w =>
+    -- while running:
+    if w.running = false then (w, 2) else
     -- try: if task: process_task(task)
     let r := w.fireNext
     let w := r.1
@@ -354,7 +392,7 @@ def World.runLoop : Nat → Nat → World → World × Bool
       else if w.now + d > T then
         -- stop(): `running = False` (and the trigger is set); the iteration
         -- still finishes with the drain
-        (({ w with now := max w.now T, tm := { w.tm with trig := true } }).drain, true)
+        (({ w with now := max w.now T, running := false, tm := { w.tm with trig := true } }).drain, 1)
       else
         runLoop fuel T ({ w with now := w.now + d }).drain
 
@@ -370,7 +408,7 @@ inductive Op
   | defer (f : Fn)                      -- core.deferred(f)
   | tick (d : Nat)                      -- the clock moves, nothing runs
   | next                                -- one get_next_task + process_task
-  | advOnce (d : Nat)                   -- clock += d; core.run_once()
+  | advOnce (d fuel : Nat)              -- clock += d; core.run_once()
   | advRun (d fuel : Nat)               -- core.run() until now + d
   | jumpRun (fuel : Nat)                -- core.run() until the armed deadline (if any)
 
@@ -380,8 +418,9 @@ def World.api (w : World) (r : TM × Option Raised) : World :=
   | some k => w.emit (.raised k)
   | none => w
 
-/-- one operation; the second component is the `delta` of `next` / the
-    completion flag of the loops (1 = ran to completion) -/
+/-- one operation; the second component is the `delta` of `next` / the result
+    code of the loops (0 = fuel ran out, 1 = ran to completion, 2 = `run` was
+    stopped from inside) -/
 def World.step (w : World) : Op → World × Option Nat
   | .installAt tid t => (w.api (w.tm.installTask w.now tid (some t) none), none)
   | .installAfter tid d => (w.api (w.tm.installTask w.now tid none (some d)), none)
@@ -392,18 +431,19 @@ def World.step (w : World) : Op → World × Option Nat
   | .defer f => (w.defer f, none)
   | .tick d => ({ w with now := w.now + d }, none)
   | .next => w.next
-  | .advOnce d =>
-    let r := ({ w with now := w.now + d }).runOnce
+  | .advOnce d fuel =>
+    let r := ({ w with now := w.now + d }).runOnce fuel
     (r.1, some (if r.2 then 1 else 0))
   | .advRun d fuel =>
-    let r := w.runLoop fuel (w.now + d)
-    (r.1, some (if r.2 then 1 else 0))
+    -- `running = True` … loop … `running = False`
+    let r := ({ w with running := true }).runLoop fuel (w.now + d)
+    ({ r.1 with running := false }, some r.2)
   | .jumpRun fuel =>
     let T := match w.tm.deadline with
       | some t => max t w.now
       | none => w.now
-    let r := w.runLoop fuel T
-    (r.1, some (if r.2 then 1 else 0))
+    let r := ({ w with running := true }).runLoop fuel T
+    ({ r.1 with running := false }, some r.2)
 
 /-- a whole history -/
 def World.run (w : World) : List Op → World
